@@ -3,14 +3,19 @@ import math
 
 from harness import dtwgen
 
-COQ_FILES = ["theories/BandTie.v", "theories/Traceback.v", "props/C05.v"]
+COQ_FILES = ["theories/BandTie.v", "theories/Traceback.v", "theories/RelaxedEnd.v", "theories/RelaxedEndSpec.v",
+             "props/C05.v"]
 THEOREMS = [("DVProps.C05", "C05_traced_path_cost"), ("DVProps.C05", "C05_traced_path_contiguous"),
-            ("DVProps.C05", "C05_traced_path_on_finite_cells"), ("DVProps.C05", "C05_executable_is_model")]
+            ("DVProps.C05", "C05_traced_path_on_finite_cells"), ("DVProps.C05", "C05_executable_is_model"),
+            ("DVProps.C05", "C05_warping_path_cost_is_distance"), ("DVProps.C05", "C05_relaxed_value_is_distance")]
 TRUSTED_BASE = [
     "Coq 8.16.1 kernel (no native_compute)",
     "dtw.best_path is modelled by Traceback.tb (first minimum of [diag, up+pen, left+pen]); tied by exact path "
     "comparison from random start cells; the C tracebacks (dtw_best_path*, regions of the compact layout) are tied by "
     "the implementation-independent validity/cost checker only",
+    "dtw.warping_path's end relaxation (the -1 marks written by warping_paths, dtw._relaxed_end) is modelled by "
+    "RelaxedEnd.v (hand-written from the code, statement by statement); tied by exact comparison of the start cell "
+    "and of the whole path of dtw.warping_path with the extracted warping_path_model",
     "extraction + driver.ml; harness/props/C05.py (path checker)",
 ]
 ASSUMPTIONS = ["exact arithmetic; engines may differ on ties: only validity and cost are compared across engines"]
@@ -41,6 +46,19 @@ def gen_cases(rng, tier):
                 case["settings"]["psi"] = None
                 dtwgen.derived(case)
         cases.append(case)
+    # short series with large relaxations: the neighbours of a marked corner are border cells
+    m = 300 if tier == "quick" else 3000
+    for k in range(m):
+        short = 1 if k % 3 else 2
+        long_ = rng.randint(1, 5)
+        r, c = (short, long_) if k % 2 else (long_, short)
+        case = {"site": "py.warping_path", "ndim": 1, "s1": dtwgen.rand_series(rng, r, 1),
+                "s2": dtwgen.rand_series(rng, c, 1),
+                "settings": dtwgen.rand_settings(rng, r, c, allow_psi=False, allow_mld=False, allow_max_step=False)}
+        case["settings"]["psi"] = [rng.choice([0, rng.randint(0, r)]), rng.randint(0, r + 1),
+                                   rng.choice([0, rng.randint(0, c)]), rng.randint(0, c + 1)]
+        case["stream"] = "short-large-psi"
+        cases.append(dtwgen.derived(case))
     return cases
 
 
@@ -51,6 +69,8 @@ def expected(cases, oracle):
         lines.append(dtwgen.oracle_line("dtw", c))
         if "start" in c:
             lines.append(dtwgen.oracle_line("bp", c) + " %d %d" % tuple(c["start"]))
+        elif c["site"] == "py.warping_path":
+            lines.append(dtwgen.oracle_line("wpath", c))
         else:
             lines.append("")
     ans = oracle.query(lines)
@@ -64,6 +84,10 @@ def expected(cases, oracle):
         e = {"m": mm, "d": math.inf if d == "inf" else int(d)}
         if "start" in c:
             e["path"] = [[int(x) for x in t.split(",")] for t in p.split()] if p else []
+        elif c["site"] == "py.warping_path":
+            cell, _, pp = p.partition(" | ")
+            e["wp_start"] = [int(x) for x in cell.split(",")]
+            e["wp_path"] = [[int(x) for x in t.split(",")] for t in pp.split()]
         out.append(e)
     return out
 
@@ -88,7 +112,9 @@ def impl_run(case):
         return {"path": dtw.best_path(m, row=row, col=col, penalty=adj_pen), "cell": m[row, col]}
     if site == "py.warping_path":
         p, d = dtw.warping_path(s1, s2, include_distance=True, **kw)
-        return {"path": p, "d": d}
+        stt = dtw.DTWSettings.for_dtw(s1, s2, **kw)
+        _, m = dtw.warping_paths(s1, s2, keep_int_repr=True, **kw)
+        return {"path": p, "d": d, "relaxed_end": [int(x) for x in dtw._relaxed_end(m, stt)]}
     if site == "py.warping_path_ndim":
         p, d = dtw.warping_path(s1, s2, include_distance=True, use_ndim=True, **kw)
         return {"path": p, "d": d}
@@ -226,6 +252,13 @@ def judge(case, got, exp):
         return mm
     if dtwgen.result_transform(cost, idn) != d:
         return {"kind": "path-cost-differs-from-distance", "cost": dtwgen.result_transform(cost, idn), "distance": d}
+    if site == "py.warping_path":
+        # the as-written model of the end relaxation and of the trace: exact
+        if g["relaxed_end"] != exp["wp_start"]:
+            return {"kind": "relaxed-end-differs-from-model", "got": g["relaxed_end"], "model": exp["wp_start"]}
+        if [list(map(int, q)) for q in g["path"]] != exp["wp_path"]:
+            return {"kind": "warping_path-differs-from-model", "got": [list(map(int, q)) for q in g["path"]],
+                    "model": exp["wp_path"]}
     return None
 
 
